@@ -253,8 +253,8 @@ static void check_sign2(err_t code, int operable, const word* q, const octet* oi
 	   (the key pointer is the G output buffer) */
 	V_ASSERT(E.wbl_key == E.h_ptr[e], "belt-wbl key is the hash output");
 	/* chain */
-	V_ASSERT(E.nwbl >= 1 && eqo(E.wbl_in[0], hash, NO), "the chain starts from H");
-	for (i = 1; i < 3; ++i) if (i < E.nwbl) V_ASSERT(eqo(E.wbl_in[i], E.wbl_out[i - 1], NO), "a rejected candidate is encrypted again unchanged");
+	V_ASSERT(E.nwbl >= 1 && E.wbl_count[0] == NO && eqo(E.wbl_in[0], hash, NO), "the chain starts from H");
+	for (i = 1; i < 3; ++i) if (i < E.nwbl) V_ASSERT(E.wbl_count[i] == NO && eqo(E.wbl_in[i], E.wbl_out[i - 1], NO), "a rejected candidate is encrypted again unchanged");
 	for (i = 0; i < 3; ++i) if (i < E.nwbl)
 	{
 		ld(k, E.wbl_out[i], NO);
@@ -386,4 +386,43 @@ void h_idextract(void)
 			eqo(id_pubkey, E.to_val[0], NO) && eqo(id_pubkey + NO, E.to_val[1], NO), "identity public key = exported coordinates of R");
 	}
 	V_CANARY("flow idextract");
+}
+
+/* ---- key transport: bignKeyWrap (token = <R>_2l || belt-kwp(key || header, theta), R = k G, theta = <k Q>_256) */
+#ifndef KLEN
+#define KLEN 24
+#endif
+void h_keywrap(void)
+{
+	PROLOGUE0;
+	V_IN_ARR(octet, key, KLEN); V_IN_ARR(octet, header, 16); V_IN_ARR(octet, pubkey, 2 * NO); V_IN(int, have_rng); V_IN(size_t, rng_state);
+	V_BUF(octet, token, 16 + NO + KLEN);
+	err_t code; int fav; size_t j; int same;
+	gen_i rng = have_rng ? rng_stub : 0;
+	const octet* hdr = HAVE_T ? (const octet*)&header[0] : (const octet*)0;
+	code = bignKeyWrap(token, &params, key, KLEN, hdr, pubkey, rng, (void*)rng_state);
+	STATE_RULES(code);
+	fav = operable && rng != 0 && E.created && E.start_ret == 1 && E.nrand == 1 && E.rand_ret &&
+		E.nfrom == 2 && E.from_ret[0] && E.from_ret[1] && E.nmul == 2 && E.mul_ret && E.mul2_ret;
+	V_ASSERT(code == ERR_OK ? fav : 1, "bignKeyWrap succeeds only with a generator, 0 < k < q and in-range public key coordinates");
+	V_ASSERT(code != ERR_OK ? !fav : 1, "bignKeyWrap succeeds whenever its inputs are admissible");
+	V_ASSERT(E.nrand == 0 || (E.rand_mod == E.order && E.rand_n == NW && E.rand_rng == rng && E.rand_state == (void*)rng_state),
+		"k is drawn modulo q with the caller's generator");
+	if (code == ERR_OK)
+	{
+		V_ASSERT(E.from_src[0] == pubkey && E.from_src[1] == pubkey + NO, "public key coordinates imported from pubkey, pubkey + no");
+		V_ASSERT(E.mul_ec == (const void*)E.ec && eqw(E.mul_aval, E.from_val[0], NW) && eqw(E.mul_aval + NW, E.from_val[1], NW) && E.mul_m == NW && eqw(E.mul_d, E.rand_val, NW), "k Q");
+		V_ASSERT(E.mul2_ec == (const void*)E.ec && E.mul2_a == E.base && eqw(E.mul2_aval, E.base_val, 2 * NW) && E.mul2_m == NW && eqw(E.mul2_d, E.rand_val, NW), "R = k G");
+		V_ASSERT(E.nto == 2 && eqw(E.to_in[0], E.mul_out, NW) && eqw(E.to_in[1], E.mul2_out, NW), "the x-coordinates of k Q and R are exported");
+		V_ASSERT(E.wbl_len == 32 && E.wbl_key == (const void*)E.to_dst[0] && eqo(E.wbl_keyval, E.to_val[0], 32), "belt-kwp keyed with theta = first 32 octets of <k Q>");
+		same = E.nwbl == 1 && E.wbl_count[0] == KLEN + 16 && E.wbl_ptr[0] == (const void*)(token + NO);
+		for (j = 0; j < KLEN; ++j) same &= E.wbl_in[0][j] == key[j];
+		for (j = 0; j < 16; ++j) same &= E.wbl_in[0][KLEN + j] == (hdr ? header[j] : 0);
+		V_ASSERT(same, "belt-kwp protects key || header (zero header when none is given), in place at token + no");
+		same = 1;
+		for (j = 0; j < NO; ++j) same &= token[j] == E.to_val[1][j];
+		for (j = 0; j < KLEN + 16; ++j) same &= token[NO + j] == E.wbl_out[0][j];
+		V_ASSERT(same, "token = <R>_2l || protected key");
+	}
+	V_CANARY("flow keywrap");
 }
